@@ -51,6 +51,9 @@ def replay(r):
     from tangermeme.deep_lift_shap import deep_lift_shap
     A, L, B, ns = r["A"], r["L"], r["B"], r["ns"]
     model = dl.real_model(r.get("arch", "dense1"), A, L)
+    if r.get("dropout"):
+        model = torch.nn.Sequential(torch.nn.Dropout(0.5), *list(model))
+        model.train()
     g = torch.Generator().manual_seed(5)
     seqs = [[int(v) for v in torch.randint(0, A, (L,), generator=g)] for _ in range(B)]
     X = C.real_onehot(seqs, A).double()
@@ -115,6 +118,20 @@ def worker(cfg):
 
     def body(ctx):
         net = dl.build(cfg.get("arch", "dense1"), A, L, NN=NN)
+        if cfg.get("dropout"):
+            # a model with a mode-dependent layer that the caller left in training mode (torch's default after construction)
+            inner_ = net
+
+            class Wrap(NN.Module):
+                def __init__(self):
+                    super().__init__()
+                    self.drop, self.inner = NN.Dropout(), inner_
+
+                def forward(self, X_, *a):
+                    return self.inner(self.drop(X_))
+            nn._DROPOUT_CALLS[0] = 0
+            net = Wrap()
+            net.train()
         xc = C.sym_chars(ctx, "x", (B, L), A)
         X = C.onehot_from_chars(xc, A, dtype="float32")
         bs = core.Int("batch_size")
@@ -293,7 +310,7 @@ def configs(tier):
     q = tier == "quick"
     cf = [dict(mode="fn", A=2, L=2, B=2, ns=2), dict(mode="tensor", A=2, L=2, B=2, ns=2, raw=True), dict(mode="fn", A=2, L=2, B=2, ns=3, hypothetical=True),
           dict(mode="fn", A=2, L=2, B=3, ns=1), dict(mode="tensor", A=2, L=2, B=4, ns=1),
-          dict(mode="tensor", A=2, L=2, B=2, ns=1, history_ops=True)]
+          dict(mode="tensor", A=2, L=2, B=2, ns=1, history_ops=True), dict(mode="tensor", A=2, L=2, B=2, ns=2, dropout=True)]
     cf += [dict(kind="lemma_rows", rule="nonlinear", Bp=2, n=2), dict(kind="lemma_rows", rule="maxpool", Bp=2, n=4, K=2)]
     if not q:
         cf += [dict(kind="lemma_rows", rule="nonlinear", Bp=3, n=2), dict(kind="lemma_rows", rule="maxpool", Bp=2, n=3, K=3, padding=1)]
